@@ -123,6 +123,49 @@ def rule_visit1(prog, rep, tier, anchor="ast_utils.RewriteAtQuery"):
             rep.holds("VISIT-1", "%s: all %d paths delegate or replace" % (name, total), loc(prog, m.node), "")
 
 
+def rule_visit7(prog, rep, tier, anchor="ast_utils.RewriteAtQuery"):
+    """VISIT-7 (C11, C15, C14): as long as a `_location` is not the full path of a node (VISIT-4: it is built from the parent's simple
+    name), what stands inside a function body can carry the location of a module-level definition of the same name - an
+    assignment in an `if` block of `helper` has the one-element location of a class so named.  The replacer then must not descend
+    into function bodies: for every kind of function definition the grammar has, its handler returns without delegating to
+    `generic_visit`.  A kind without a handler is descended into by NodeTransformer's default.  When locations are inductive the
+    clause is void."""
+    ci = prog.cls(anchor)
+    try:
+        inductive = location_is_inductive(prog)
+    except AnalysisError:
+        inductive = False
+    kinds = [k for k in ("FunctionDef", "AsyncFunctionDef") if hasattr(ast, k)]
+    if inductive:
+        rep.holds("VISIT-7", "%s: locations are full paths, descending into function bodies cannot meet a second node with the addressed location" % anchor,
+                  loc(prog, ci.node), "")
+        return
+    for k in kinds:
+        m = ci.methods.get("visit_" + k)
+        if m is None:
+            # an alias in the class body (`visit_AsyncFunctionDef = visit_FunctionDef`) is a handler too
+            alias = next((st for st in ci.node.body if isinstance(st, ast.Assign) and any(isinstance(t, ast.Name) and t.id == "visit_" + k for t in st.targets)
+                          and isinstance(st.value, ast.Name) and st.value.id in ci.methods), None)
+            if alias is not None:
+                m = ci.methods[alias.value.id]
+        if m is None:
+            rep.violation(Finding(
+                "VISIT-7", anchor, "descends-into:%s" % k,
+                "%s has no handler for %s: NodeTransformer's default visits the body of such a function, where a statement can carry the (two-element at most) "
+                "location of a module-level definition of the same name - the local statement is replaced and the addressed definition is left as it was"
+                % (anchor, k), loc(prog, ci.node)))
+            continue
+        deleg = [c for c in ast.walk(m.node) if isinstance(c, ast.Call) and isinstance(c.func, ast.Attribute) and c.func.attr == "generic_visit"]
+        if deleg:
+            rep.violation(Finding(
+                "VISIT-7", "%s.%s" % (anchor, m.node.name), "descends-into:%s" % k,
+                "%s delegates to generic_visit (%s) and so descends into the function's body, where a statement can carry the location of a module-level "
+                "definition of the same name (locations are built from the parent's simple name, not its path): the local statement is replaced and the "
+                "addressed definition is left as it was" % (m.node.name, src(deleg[0], 50)), loc(prog, deleg[0])))
+        else:
+            rep.holds("VISIT-7", "%s handles %s without descending into its body" % (m.node.name, k), loc(prog, m.node), "")
+
+
 def rule_visit2(prog, rep, tier, anchor="ast_utils.RewriteAtQuery"):
     """VISIT-2: replacement happens at most once: every site that sets replaced=True is guarded by `not self.replaced`."""
     ci = prog.cls(anchor)
